@@ -49,7 +49,7 @@ JBuildIdentity(e, cls0) ==
        IF isDest THEN ~DestProhibited(d.st, d.ct) ELSE ~RouterProhibited(d.st, d.ct), cls),
      R("C09", "constructor_rejects_prohibited", ~permitted, ~r.ok, cls),
      R("C09", "permitted_supported_accepted", permitted /\ IdentityModelValid(m), r.ok, cls),
-     R("C14", "constructor_rejects_documented_defect", IdentityDefect(m), ~r.ok, cls),
+     R("C14", "constructor_rejects_documented_defect", IdentityDefect(m) /\ "literal" \notin DOMAIN m, ~r.ok, cls),
      \* the padding is exactly the bytes between the keys and the keys have their declared lengths: anything else is refused, not trimmed or filled
      R("C10", "constructor_refuses_sizes_that_do_not_fill_the_block", IdentityDefect(m) /\ "literal" \notin DOMAIN m, ~r.ok, cls),
      R("C07", "constructed_hash_and_addresses", hasAcc /\ r.serok /\ "hash" \in DOMAIN r.acc /\ "sha" \in DOMAIN r,
